@@ -69,7 +69,7 @@ func init() {
 				continue
 			}
 			for _, g := range m.gs {
-				c.Check(c.ge().ensures(f, g, 0), "light/rpc."+m.name+" ensures "+g.Name, w.pos(f.Pos()), "the answer is relayed only behind this check", "light/rpc."+m.name+" can relay an answer without: "+g.Name)
+				c.Check(c.ge().ensures(f, g, 2), "light/rpc."+m.name+" ensures "+g.Name, w.pos(f.Pos()), "the answer is relayed only behind this check", "light/rpc."+m.name+" can relay an answer without: "+g.Name)
 			}
 		}
 		// Tx: returned with a proof only when it validates; the relayed fields are the proven ones
@@ -86,7 +86,7 @@ func init() {
 				guardCmp("height positive", h, ">", "0"),
 			} {
 				// every success return is behind the check, except the documented no-proof relay
-				c.Check(c.ge().ensures(f, guardAny(g.Name, g, np), 0), fk+" :: relay a proven tx <= "+g.Name, w.pos(f.Pos()), "a tx requested with proof is relayed only behind this check", "light/rpc.Client.Tx can relay a tx requested with proof without: "+g.Name)
+				c.Check(c.ge().ensures(f, guardAny(g.Name, g, np), 2), fk+" :: relay a proven tx <= "+g.Name, w.pos(f.Pos()), "a tx requested with proof is relayed only behind this check", "light/rpc.Client.Tx can relay a tx requested with proof without: "+g.Name)
 			}
 		}
 		// BlockchainInfo: each relayed meta equals a header verified for its own height
@@ -121,7 +121,7 @@ func init() {
 					if hdr.Dominates(p) {
 						at := p.Instrs[len(p.Instrs)-1]
 						for _, g := range []Guard{guardRe("this meta's hash equals the verified header's", `^true\(bytes\.Equal\(.*\.Header\.Hash\(\), .*\.Hash\(\)\)\)$`), guardRe("light client verified this meta's height", `^nil\(c\.updateLightClientIfNeededTo\(ctx, .*BlockMetas\[.*\]\.Header\.Height\)#1\)$`)} {
-							ok, path := c.ge().guardedEdge(f, p, hdr, g, 1)
+							ok, path := c.ge().guardedEdge(f, p, hdr, g, 2)
 							c.Check(ok, fk+" :: next meta <= "+g.Name, w.ipos(at), "the loop only continues behind the check", "the loop continues to the next meta without: "+g.Name+" via "+pathStr(w, path))
 						}
 					}
@@ -137,7 +137,7 @@ func init() {
 		}
 		// the update helper really asks the light client
 		if f := c.fn("light/rpc", "Client.updateLightClientIfNeededTo"); f != nil {
-			ok := c.ge().ensures(f, guardAny("light client verified/updated", guardCallOK("v", "light#Client.VerifyLightBlockAtHeight"), guardCallOK("u", "light#Client.Update"), guardRe("phi", `^nil\(phi\(.*VerifyLightBlockAtHeight.*\)\)$`)), 0)
+			ok := c.ge().ensures(f, guardAny("light client verified/updated", guardCallOK("v", "light#Client.VerifyLightBlockAtHeight"), guardCallOK("u", "light#Client.Update"), guardRe("phi", `^nil\(phi\(.*VerifyLightBlockAtHeight.*\)\)$`)), 2)
 			c.Check(ok, funcKey(f)+" :: returns a block only after the light client verified it", w.pos(f.Pos()), "guarded", "the helper can return a block without light-client verification")
 			for _, v := range w.callsTo(f, "light#Client.VerifyLightBlockAtHeight") {
 				c.Check(w.expr(callArgs(v)[1]) == "height", funcKey(f)+" :: verifies the requested height", w.ipos(v), "VerifyLightBlockAtHeight(ctx, *height, now)", w.callStr(v))
